@@ -28,3 +28,15 @@ C08_ORDER_ONLY = {
     'BSC_posix_spawn',      # file actions (stdin/stdout/stderr opens) are looked up before the executable's path
     'BSC_symlinkat',        # only the new path is resolved by the kernel (the link's contents is not): handler convention = last lookup
 }
+
+# C14: the records through which the dump declares which process a thread belongs to, and what each one declares when it is
+# read (key, value of the update of parser.threads_pids; 'v<j>' = word j of the record, 'tid' = the emitting thread).
+# From XNU: kdbg_trace_data(proc, &pid, &uniqueid); TRACE_DATA_NEWTHREAD(new thread id, pid, ...);
+# TRACE_DATA_THREAD_TERMINATE_PID(pid, uniqueid) emitted by the terminating thread; PERF_TI_DATA(pid, tid, dq_addr, runmode).
+C14_THREAD_DECLARATIONS = {
+    'TRACE_DATA_NEWTHREAD': ('v0', 'v1'),
+    'TRACE_DATA_THREAD_TERMINATE_PID': ('tid', 'v0'),
+    'PERF_THD_Data': ('v1', 'v0'),
+}
+# the records that (re)name a process: the name record follows its data record on the same thread
+C14_PROCESS_NAMINGS = {'TRACE_STRING_NEWTHREAD': 'last_data_newthread', 'TRACE_STRING_EXEC': 'last_data_exec'}
